@@ -162,7 +162,7 @@ func TestVerifC11bFilter(t *testing.T) {
 		g := vfNewG(rt, env.pools)
 		tree0 := vfGenFilterTree(g, kindName, "f1")
 		delete(tree0, "mirrorPool") // its goroutine outlives Handle and reads the live request (see spec.json)
-		mode := vfPick(rt, "mode", "same", "mutate", "mutate", "independent")
+		mode := vfPick(rt, "mode", "same", "mutate", "mutate", "mutate", "independent")
 		var tree1 map[string]interface{}
 		switch mode {
 		case "same":
@@ -213,6 +213,12 @@ func TestVerifC11bFilter(t *testing.T) {
 			newR[0] = shared
 		}
 		newFirst := vfChance(rt, "new-generation-first", 40)
+		if kindName == "RateLimiter" && vf.HasKnown(vfC11KeyRateLimiterStolen) {
+			// known finding (old generation loses its limiters): look at the new generation first, the
+			// case is abandoned at the first request that trips over the known defect
+			vf.Exclude()
+			newFirst = true
+		}
 		oldSeq := append(append(append([]vfC11Req{}, pre...), oldA...), oldB...)
 
 		describe := func() string {
@@ -283,7 +289,8 @@ func TestVerifC11bFilter(t *testing.T) {
 			})
 		}
 		panicKey := func(gen, when string, c vfC11CallResult) string {
-			return fmt.Sprintf("kind=%s gen=%s when=%s site=%s panic=%s", kindName, gen, when, c.site, vfClass(c.text))
+			_ = when
+			return vfC11PanicKey(kindName, gen, c)
 		}
 		hung := func(what string) {
 			rt.Fatalf("VF-INCONCLUSIVE %s did not return within %s\n%s", what, vfC11HangLimit, describe())
@@ -339,7 +346,7 @@ func TestVerifC11bFilter(t *testing.T) {
 			}
 			f1 = nil
 			finish()
-			if vf.Violation(rt, panicKey("new", "Inherit", c), "Inherit panicked although both generations work on their own: %s\n%s", c.text, describe()) {
+			if vfC11Report(vf, rt, panicKey("new", "Inherit", c), "Inherit panicked although both generations work on their own: %s\n%s", c.text, describe()) {
 				return
 			}
 		}
@@ -356,7 +363,7 @@ func TestVerifC11bFilter(t *testing.T) {
 			oldExercised++
 			if o.call.panicked {
 				finish()
-				vf.Violation(rt, panicKey("old", when, o.call), "a request on the old generation panicked %s: %s\nrequest: %s\n%s", when, o.call.text, r.any.String(), describe())
+				vfC11Report(vf, rt, panicKey("old", when, o.call), "a request on the old generation panicked %s: %s\nrequest: %s\n%s", when, o.call.text, r.any.String(), describe())
 				return false
 			}
 			if nondet0 != "" {
@@ -373,7 +380,7 @@ func TestVerifC11bFilter(t *testing.T) {
 				return true
 			}
 			finish()
-			vf.Violation(rt, fmt.Sprintf("kind=%s old-generation-changed-behaviour when=%s field=%s", kindName, when, vfC11FieldClass(field)),
+			vfC11Report(vf, rt, fmt.Sprintf("kind=%s old-generation-changed-behaviour when=%s field=%s", kindName, when, vfC11FieldClass(field)),
 				"the old generation answers differently %s than an instance of the same spec that never saw an update (field %s)\nrequest: %s\n got: %s\nwant: %s\n%s",
 				when, field, r.any.String(), o.obs, ref.obs, describe())
 			return false
@@ -389,12 +396,12 @@ func TestVerifC11bFilter(t *testing.T) {
 				}
 				if o.call.panicked {
 					finish()
-					vf.Violation(rt, panicKey("new", "after-inherit", o.call), "a request on the new generation panicked: %s\nrequest: %s\n%s", o.call.text, r.any.String(), describe())
+					vfC11Report(vf, rt, panicKey("new", "after-inherit", o.call), "a request on the new generation panicked: %s\nrequest: %s\n%s", o.call.text, r.any.String(), describe())
 					return false
 				}
 				if c := vfC11Call(func() { _ = f1.Status() }); c.panicked {
 					finish()
-					vf.Violation(rt, panicKey("new", "Status", c), "Status of the new generation panicked: %s\n%s", c.text, describe())
+					vfC11Report(vf, rt, panicKey("new", "Status", c), "Status of the new generation panicked: %s\n%s", c.text, describe())
 					return false
 				}
 				if nondet1 != "" {
@@ -407,7 +414,7 @@ func TestVerifC11bFilter(t *testing.T) {
 					continue
 				}
 				finish()
-				vf.Violation(rt, fmt.Sprintf("kind=%s new-generation-differs-from-fresh-instance mode=%s field=%s", kindName, mode, vfC11FieldClass(field)),
+				vfC11Report(vf, rt, fmt.Sprintf("kind=%s new-generation-differs-from-fresh-instance mode=%s field=%s", kindName, mode, vfC11FieldClass(field)),
 					"after the update request new[%d] is answered differently than by a freshly initialised filter of the new spec (field %s)\nrequest: %s\n got: %s\nwant: %s\n%s",
 					i, field, r.any.String(), o.obs, ref1[i].obs, describe())
 				return false
@@ -424,7 +431,7 @@ func TestVerifC11bFilter(t *testing.T) {
 		idx++
 		if c := vfC11Call(func() { _ = f0.Status() }); c.panicked {
 			finish()
-			if vf.Violation(rt, panicKey("old", "Status-after-inherit", c), "Status of the old generation panicked after Inherit: %s\n%s", c.text, describe()) {
+			if vfC11Report(vf, rt, panicKey("old", "Status-after-inherit", c), "Status of the old generation panicked after Inherit: %s\n%s", c.text, describe()) {
 				return
 			}
 		}
@@ -435,7 +442,7 @@ func TestVerifC11bFilter(t *testing.T) {
 		}
 		if c.panicked {
 			finish()
-			vf.Violation(rt, panicKey("old", "Close", c), "closing the old generation after Inherit panicked: %s\n%s", c.text, describe())
+			vfC11Report(vf, rt, panicKey("old", "Close", c), "closing the old generation after Inherit panicked: %s\n%s", c.text, describe())
 			return
 		}
 		if !checkOld("after-close", oldB[0], ref0[idx], true) {
@@ -453,7 +460,7 @@ func TestVerifC11bFilter(t *testing.T) {
 		}
 		if c.panicked {
 			finish()
-			vf.Violation(rt, panicKey("new", "Close", c), "closing the new generation panicked: %s\n%s", c.text, describe())
+			vfC11Report(vf, rt, panicKey("new", "Close", c), "closing the new generation panicked: %s\n%s", c.text, describe())
 			return
 		}
 		finish()
